@@ -54,6 +54,10 @@ M = [
      "            tmppath = str(path)\n            try:\n                with open(path, \"wb\") as f:\n                    f.write(data)"),
     ("C15", "key-without-url", "Client.py",
      'filename = f"{self.org}-{self.fid}-{urlhash}.profrs"', 'filename = f"{self.org}-{self.fid}.profrs"'),
+    ("C15", "key-without-orgfid", "Client.py",
+     'filename = f"{self.org}-{self.fid}-{urlhash}.profrs"', 'filename = f"{urlhash}.profrs"'),
+    ("C15", "key-org-lowercased", "Client.py",
+     'filename = f"{self.org}-{self.fid}-{urlhash}.profrs"', 'filename = f"{str(self.org).lower()}-{self.fid}-{urlhash}.profrs"'),
     ("C15", "no-lock", "Client.py", "        with _PROFILE_CACHE_LOCK:\n            _, dtprofup_cached", "        if True:\n            _, dtprofup_cached"),
     # (equivalent given the newer-check/lock/atomic replace, so not listed: cache written before the status/date checks;
     #  a fixed temp name under the lock; re-raising on an unreadable cache)
